@@ -103,7 +103,8 @@ fn arb_case(u: &mut Unstructured) -> arbitrary::Result<WireCase> {
         _ => Blocking::CompressedStream(u.int_in_range(1..=70_000)?),
     };
     let twin_ids = u.ratio(1, 5)?;
-    Ok(WireCase { kind, cluster_id, digest, bulk_digest, deltas, blocking, twin_ids })
+    let twin_by_name = u.ratio(1, 5)?;
+    Ok(WireCase { kind, cluster_id, digest, bulk_digest, deltas, blocking, twin_ids, twin_by_name })
 }
 
 /// Structured input -> model message -> independent encoder -> real decoder.
